@@ -51,6 +51,10 @@ def run(run, tier, seed, stage, bins):
         for f in sorted(glob.glob(os.path.join(logdir, "tsan.*"))):
             with open(f, errors="replace") as fh:
                 for r in parse_tsan(fh.read()):
+                    if "vf_signal_handler" in r["text"]:
+                        # the harness's own SIGALRM watchdog ran on a worker thread: not the library (its flight record is not meant to be thread safe)
+                        run.count("tsan.reports_in_harness_watchdog_ignored")
+                        continue
                     total_reports += 1
                     seen.setdefault(r["sig"], r)
         for sig, r in seen.items():
